@@ -4,7 +4,8 @@ Require Bits.Spec.Merkle Bits.Spec.Subsidy Bits.Spec.ScriptNum.
 Require Bits.Model.Merkle Bits.Model.Coinbase Bits.Model.Block Bits.Model.MineBlock.
 Definition c15_merkle_root := Bits.Model.Merkle.merkle_root.
 Definition c15_coinbase_txin := Bits.Model.Coinbase.coinbase_txin.
-Definition c15_coinbase_tx := Bits.Model.Coinbase.coinbase_tx.
+(* = coinbase_tx (Proofs/Coinbase.v: coinbase_tx_fast_eq); avoids building 2**halvings *)
+Definition c15_coinbase_tx := Bits.Model.Coinbase.coinbase_tx_fast.
 Definition c15_block_header := Bits.Model.Block.block_header.
 Definition c15_mk_header := Bits.Model.Block.mk_header.
 Definition c15_block_header_deser := Bits.Model.Block.block_header_deser.
